@@ -411,7 +411,9 @@ var consPool = []Cons{{"int", nil}, {"bool", nil}, {"float", nil}, {"alpha", nil
 	{"regex", []string{`^[a-z.]+$`}}, {"regex", []string{`^a/b$`}}, {"even", nil}}
 
 var valPool = []string{"1", "12", "15", "7", "100", "-3", "+4", "true", "x", "ab", "abc", "abcd", "1.5", "2020-02-03",
-	"CD2C1638-1638-72D5-1638-DEADBEEF1638", "a1", "é", "ééé", "0", "18", "a-b", "a.b", "", "12a", ":id", "<int>", "12-34", "b", "cab", "a/b", "16", "4", "99999999999999999999"}
+	"CD2C1638-1638-72D5-1638-DEADBEEF1638", "a1", "é", "ééé", "0", "18", "a-b", "a.b", "", "12a", ":id", "<int>", "12-34", "b", "cab", "a/b", "16", "4", "99999999999999999999",
+	// letters whose Unicode lower-case form has another byte length (case-insensitive routing must not shift offsets)
+	"\u212a12", "\u2126x", "\u0130b", "\u023aab", "x\u212a"}
 
 var firstLits = []string{"/", "/u", "/user/", "/a-", "/us/", "/v1/"}
 var midLits = []string{"/", "/x", "-", ".", "/y/", "-z", "/x/", "/v1\x00", "/-"}
